@@ -435,9 +435,25 @@ pub fn c05(tier: Tier) -> ! {
         v
     };
     let t = run_jobs(&mut run, &jobs, &judge);
+    // real hard and LJ states: every stage of a chained-stage search re-run as a pure hill climb
+    let sweep_cfg = crate::rsx::Sweep { depth: tier.pick(2, 4), cap: tier.pick(400, 20_000), dense_steps: 300, shapes: crate::rsx::start_shapes(tier) };
+    let (rf, rstarts) = crate::rsx::sweep(&sweep_cfg, &crate::rsx::Wants { c01: false, c04: false, c05: true, c08: false });
+    for (w, c) in rf.c05 {
+        run.fail(None, &w, c);
+    }
+    run.set("real_state_starts", rstarts);
+    run.set("real_states_visited", rf.states);
+    run.set("real_hill_climb_stages_improved", rf.hill_climb_improved);
+    run.set("real_hill_climb_stages_unchanged", rf.hill_climb_stayed);
+    let st = run.get("states") + rf.states;
+    run.set("states", st);
+    let tr = run.get("transitions") + rf.transitions;
+    run.set("transitions", tr);
+    let tv = run.get("traces_validated_against_impl") + rf.transitions;
+    run.set("traces_validated_against_impl", tv);
     run.set("max_deviations", tier.pick(1, 2) as u64);
     run.set("exhaustive", true);
-    run.set("explanation", "Every optimiser configuration of the grid with kt_start = 0 (kt_finish x kt_ratio x steps/inner_steps x max_step_size x convergence) is run on probe states with 1-3 parameters under every script with at most max_deviations departures from 4 baseline answer patterns (and a full product to depth 3 on the multi-loop configurations). In every consistent accept/reject history the accepted scores must be non-decreasing and the returned score at least the input score. Real crystal states are covered by the chained-stage search of C08 (hill-climb mode).");
+    run.set("explanation", "Every optimiser configuration of the grid with kt_start = 0 (kt_finish x kt_ratio x steps/inner_steps x max_step_size x convergence) is run on probe states with 1-3 parameters under every script with at most max_deviations departures from 4 baseline answer patterns (and a full product to depth 3 on the multi-loop configurations). In every consistent accept/reject history the accepted scores must be non-decreasing and the returned score at least the input score. Real hard and LJ crystal states: every state of a chained-stage breadth-first search (engine rsx) is put through each of the 28 scripted one- and two-step stages at kt_start = 0 and the returned score compared with the input score.");
     run.assume("probe landscape is consistent (same parameters, same score)");
     run.require(t.accepts > 0 && t.rejects > 0, "both accepted and rejected steps must occur");
     run.finish()
